@@ -26,6 +26,16 @@ pub const ISSUE_COST: u64 = 50_000_000_000_000_000;
 fn transfer_payload(token_id: &[u8], src: &[u8], dest: &[u8], amount: u64, data: &[u8]) -> Vec<u8> {
     out(InterchainTransferPayload::<M> { message_type: mbig(0), token_id: b32(token_id), source_address: mb(src), destination_address: mb(dest), amount: mbig(amount), data: mb(data) }.abi_encode())
 }
+// the same transfer message (no data) as VALID ABI whose dynamic tails are stored out of order: destination address first, then source address, then the data;
+// every offset-following decoder reads the same fields as from the canonical layout
+fn transfer_payload_swapped(token_id: &[u8], src: &[u8], dest: &[u8], amount: u64) -> Vec<u8> {
+    fn w32(n: u64) -> Vec<u8> { let mut v = vec![0u8; 24]; v.extend_from_slice(&n.to_be_bytes()); v }
+    fn tail(b: &[u8]) -> Vec<u8> { let mut v = w32(b.len() as u64); v.extend_from_slice(b); while v.len() % 32 != 0 { v.push(0); } v }
+    let (td, ts, tx) = (tail(dest), tail(src), tail(b""));
+    let off_dst = 192u64; let off_src = off_dst + td.len() as u64; let off_data = off_src + ts.len() as u64;
+    let mut v = w32(0); v.extend_from_slice(token_id); v.extend(w32(off_src)); v.extend(w32(off_dst)); v.extend(w32(amount)); v.extend(w32(off_data));
+    v.extend(td); v.extend(ts); v.extend(tx); v
+}
 fn deploy_payload(token_id: &[u8], name: &[u8], symbol: &[u8], decimals: u8, minter: &[u8]) -> Vec<u8> {
     out(DeployInterchainTokenPayload::<M> { message_type: mbig(1), token_id: b32(token_id), name: mb(name), symbol: mb(symbol), decimals, minter: mb(minter) }.abi_encode())
 }
@@ -274,7 +284,7 @@ pub fn run_d(seed: u64, ntraces: usize, only: Option<u64>) {
                     script.extend([1602u64, 1702, 1802, 1600, 3090, 3290, 3590, 3291, 3490, 3990, 56, 57, 58, 60, 61, 10, 1602, 61]);
                 }
                 else if d == 10 {   // inbound battery: every routing variant for a transfer without data, the main ones for transfers with data and deployments
-                    for v in 0..21u64 { script.push(1600 + v); }
+                    for v in 0..21u64 { script.push(1600 + v); } script.push(201);
                     script.extend([1700u64, 20, 20, 1702, 1708, 1709, 1711, 1713, 1714, 1716, 1808, 1800, 1802, 1809, 1811, 1813, 1815, 1816, 1818, 1718, 195, 198, 2300, 2305, 2316, 2309, 2302, 2314]);
                     script.extend([2300u64, 2300, 2300, 2300, 2300, 2300, 85]);      // six consecutive inbound links from the peer: one of every requested manager type (2, 3, 4, 1, 0, 5 in some rotation)
                 }
@@ -300,7 +310,7 @@ pub fn run_d(seed: u64, ntraces: usize, only: Option<u64>) {
                           g.toks.push(Tok { id: tidc, kind: "mint", tm: tmc, token: Some(tok2.clone()), salt, deployer: u0.clone(), supply: 0, minter: vec![], custody: 0 }); } }
                     for sh in [9u64, 8, 0, 1, 2] { for ch in 0..5u64 { script.push(3000 + sh * 10 + ch); } }
                     for sh in [9u64, 8, 1] { for ch in 0..2u64 { script.push(3500 + sh * 10 + ch); } }
-                    script.extend([3095u64, 3595, 3085, 3585, 3596, 3290, 3291]);
+                    script.extend([3095u64, 3595, 3085, 3585, 3596, 3290, 3291]); script.extend([3100u64, 3600]);      // three payments (transfer / call)
                     script.extend([82u64, 86, 58, 59, 60, 61]);      // a custom token linked to: the hub chain itself (refused), a hub-routed chain, a direct chain   // empty destination address (transfer / call), call data in the metadata
                     script.extend([51u64, 3080, 3580, 52, 3081, 3581]);
                     script.extend([71u64, 3082, 3582, 59]);      // the hub chain registered as hub-routed: still refused as a destination (transfer, call, linkToken)      // ethereum removed -> no transfer to it; then the hub removed -> none to a hub-routed chain
@@ -347,7 +357,7 @@ pub fn run_d(seed: u64, ntraces: usize, only: Option<u64>) {
             let force_fail = a == 21; let force_props_ok = a == 22; let force_props_nonfungible = a == 29; let force_issue_ok = a == 23; let force_cb = a == 24; let force_ok = a == 25; let force_issue_fail = a == 27;
             let a = if a == 21 || a == 22 || a == 23 || a == 24 || a == 25 || a == 27 || a == 29 { 20 } else { a };
             // 1<a><vv>: inbound message kind a (6, 7, 8) in routing variant vv; 20<i> / 21<i>: message-type word i (direct / hub-wrapped); 3<shape><chain> / 35..: outbound transfer / call; 190..192: inbound link / deploy for an already bound token id (direct, hub-wrapped, deploy)
-            let mut fvar: Option<u64> = None; let mut fbound: Option<u64> = None;
+            let mut fvar: Option<u64> = None; let mut fbound: Option<u64> = None; let mut fswap = false;
             let mut ftype: Option<u64> = None; let mut fshape: Option<(u64, u64)> = None;
             let mut fdeploy = false; let mut flink = false;
             if a == 196 { // a second, separately approved deploy message for a token id whose manager already recorded its token: refused
@@ -466,6 +476,7 @@ pub fn run_d(seed: u64, ntraces: usize, only: Option<u64>) {
                         json!({"chain": hx(&chain), "id": hx(&id), "src": hx(&src), "payload": hx(&payload), "ph": hx(&keccak(&payload)), "label": "in8/step2"})); }
                 continue; }
             let a = if a == 193 { fdeploy = true; fvar = Some(0); 8 } else { a };
+            let a = if a == 201 { fswap = true; fvar = Some(0); 6 } else { a };      // 201: an inbound transfer whose payload stores its tails out of order
             let a = if (190..=192).contains(&a) { fbound = Some(a - 190); fvar = Some(if a == 191 { 2 } else { 0 }); 8 }
                     else if a >= 3000 { let c = a - 3000; fshape = Some(((c % 500) / 10, c % 10)); if c >= 500 { 5 } else { 4 } }
                     else if a >= 2300 && a < 2400 { flink = true; fvar = Some(a - 2300); 8 }      // 23<vv>: inbound LINK_TOKEN message in routing variant vv
@@ -521,6 +532,7 @@ pub fn run_d(seed: u64, ntraces: usize, only: Option<u64>) {
                     let is_egld = ttok == b"EGLD".to_vec();
                     let (egld, esdt): (u64, Vec<(Vec<u8>, u64, BigUint)>) = match if let Some((sh, _)) = fshape { sh } else if is_egld { 4 + r.below(5) } else { r.below(10) } {
                         9 if !is_egld => (0, vec![(ttok.clone(), 0, bn(amt)), (ttok.clone(), 0, bn(gasv))]),                // the same token twice: amount, gas
+                        10 if !is_egld => (0, vec![(ttok.clone(), 0, bn(amt)), (tok2.clone(), 0, bn(gasv)), (b"EGLD-123456".to_vec(), 0, bn(7))]),      // THREE ESDT entries (transfer, gas, a third): at most two are supported, refused
                         0 => (0, vec![(ttok.clone(), 0, bn(gasv))]),                                          // amount == gas
                         1 => (0, vec![(ttok.clone(), 0, bn(amt)), (tok2.clone(), 0, bn(gasv))]),               // two ESDTs
                         2 => (0, vec![(ttok.clone(), 0, bn(amt)), (tok2.clone(), 0, bn(gasv + 1))]),           // second != gas
@@ -557,7 +569,7 @@ pub fn run_d(seed: u64, ntraces: usize, only: Option<u64>) {
                     let inner = match a {
                         6 => { let recipient = if fvar.is_none() && r.chance(1, 8) { let mut v = r.pick(&g.users).to_vec(); match r.below(4) { 0 => vec![1, 2, 3], 1 => { v.push(7); v }, 2 => { v.truncate(31); v }, _ => { v.extend_from_slice(&[0u8; 32]); v } } } else if r.chance(1, 8) { g.toks.first().map(|t| t.tm.to_vec()).unwrap_or(g.dest.to_vec()) } else { r.pick(&g.users).to_vec() };
                                let osrc = match r.below(4) { 0 => r.bytes(40), 1 => vec![], _ => b"0xsender".to_vec() };
-                               transfer_payload(&tid, &osrc, &recipient, amount, b"") }
+                               if fswap { transfer_payload_swapped(&tid, &osrc, &recipient, amount) } else { transfer_payload(&tid, &osrc, &recipient, amount, b"") } }
                         7 => { let osrc = match r.below(4) { 0 => r.bytes(33), _ => b"0xsender".to_vec() }; let data = match r.below(4) { 0 => r.bytes(70), 1 => r.bytes(32), _ => b"with-data".to_vec() };
                                transfer_payload(&tid, &osrc, g.dest.as_bytes(), amount, &data) }
                         _ => if flink { let lty = [2u64, 3, 4, 1, 0, 5][(g.msg % 6) as usize];
